@@ -163,7 +163,7 @@ func TestProp(t *testing.T) {
 	rep.Assume("group membership for requests with no check due is 'as of the last check' (the harness only mints cookies the proxy itself could have issued w.r.t. groups)")
 
 	nConfigs := env.Pick(3, 24)
-	perConfig := env.Pick(2700, 6250)
+	perConfig := env.Pick(2200, 6250)
 	only, skipAll := env.Only("c01")
 	if skipAll {
 		rep.Finish()
@@ -178,6 +178,7 @@ func TestProp(t *testing.T) {
 	}
 	if only < 0 {
 		runCrossUpstream(rep, env)
+		runPrimedPairs(rep, env)
 	}
 	rep.Extra("wall_workload_s", time.Since(start).Seconds())
 	rep.Floor("backend_hits_authorised", 20)
@@ -677,4 +678,72 @@ func runCrossUpstream(rep *vh.Report, env vh.Env) {
 	})
 	rep.Floor("cross_upstream_pairs_overlapped", 20)
 	rep.Floor("cross_upstream_denied_refused", 20)
+}
+
+// runPrimedPairs: a request that is legitimately let through (a CORS preflight on an upstream with
+// skip_auth_preflight, an authorised request, a skip-auth path) is followed by an UNAUTHENTICATED
+// request for the same path: whatever the proxy remembers from the first must not open the path for the
+// second. (Added after seeded change C01f - the skip-auth decision memoised per path including the
+// method-dependent preflight shortcut - was missed by independent single requests. The preflight
+// option can only be switched on through the direct assembly.)
+func runPrimedPairs(rep *vh.Report, env vh.Env) {
+	ps, err := sut.NewDirectProxy(sut.DirectOpts{Host: "pre.sso.test", SkipAuthPreflight: true, SkipAuthRegex: []string{"^/public/", "\\.css$"}, AllowedEmailDomains: []string{"corp.test"}})
+	if err != nil {
+		rep.Inconclusive("direct proxy did not start: " + err.Error())
+		return
+	}
+	defer ps.Close()
+	host := "pre.sso.test"
+	n := env.Pick(300, 6000)
+	vh.ForEach(n, 0, -1, func(i int) {
+		r := vh.CaseRNG(env.Seed, "c01-primed", i)
+		uid := sut.NewID()
+		path := "/p/" + uid
+		if r.Intn(4) == 0 {
+			path = "/p/" + uid + "/style.CSS" // near miss of the \.css$ pattern
+		}
+		prime := []string{"preflight", "authorised", "preflight-twice", "skip-path-sibling"}[r.Intn(4)]
+		good := ps.CookieName + "=" + ps.Seal(ps.Session(host, "user"+uid+"@corp.test", nil))
+		var pr *sut.Resp
+		switch prime {
+		case "preflight", "preflight-twice":
+			for k := 0; k < 1+r.Intn(2); k++ {
+				pr = ps.Client.Do(sut.Req{Method: "OPTIONS", Host: host, Target: path, Headers: [][2]string{{"Origin", "https://x.test"}, {"Access-Control-Request-Method", "POST"}}})
+			}
+		case "authorised":
+			pr = ps.Client.Do(sut.Req{Host: host, Target: path, Cookies: []string{good}})
+		case "skip-path-sibling":
+			pr = ps.Client.Do(sut.Req{Host: host, Target: "/public/" + uid})
+		}
+		if pr == nil || pr.Err != nil {
+			rep.Count("client_errors", 1)
+			return
+		}
+		if len(ps.Hits(pr.ID)) > 0 {
+			rep.Count("primed_pairs_priming_request_forwarded", 1)
+		}
+		probe := sut.Req{Method: []string{"GET", "GET", "POST", "DELETE", "HEAD"}[r.Intn(5)], Host: host, Target: path}
+		switch r.Intn(3) {
+		case 1:
+			probe.Cookies = []string{ps.CookieName + "=" + randWord(r, 40)}
+		case 2:
+			probe.Target = path + "?x=" + randWord(r, 3)
+		}
+		rs := ps.Client.Do(probe)
+		rep.Eval()
+		if rs.Err != nil {
+			rep.Count("client_errors", 1)
+			return
+		}
+		hits := ps.Hits(rs.ID)
+		rep.Count("primed_pairs_probed", 1)
+		rep.Distinct("primed|" + prime + "|" + probe.Method)
+		if len(hits) > 0 || strings.Contains(string(rs.Body), "UPSTREAM-CONTENT-") {
+			rep.Violate("c01-primed", i, "backend-reached-unauthorised failing=cookie-absent-or-random after="+prime+"-request-for-the-same-path",
+				fmt.Sprintf("%s %s without a session reached the upstream after a %s request had been let through for that path", probe.Method, probe.Target, prime),
+				map[string]interface{}{"index": i, "prime": prime, "path": path, "probe_method": probe.Method, "status": rs.Status})
+		}
+	})
+	rep.Floor("primed_pairs_probed", 100)
+	rep.Floor("primed_pairs_priming_request_forwarded", 100)
 }
